@@ -3,6 +3,7 @@ package oracle
 import (
 	"fmt"
 	"math"
+	"reflect"
 	"runtime/debug"
 
 	"github.com/nulab/autog"
@@ -12,7 +13,147 @@ import (
 	"verifharness/model"
 )
 
+// phase5Case builds a layout case with splines routing whose corridors are captured through the public monitor
+// (second population of C19/C20: the corridors phase 5 actually builds).
+func phase5Case(prop string, seed int64, tier string, idx int) *core.Case {
+	r := rng(prop, seed, tier, idx)
+	c := &core.Case{Prop: prop, Tier: tier, Seed: seed, Index: idx}
+	g := gen.Skip(r, 3+r.Intn(5), 1, 4, 0.35, 1+r.Intn(6), 2+r.Intn(4))
+	if r.Intn(4) == 0 {
+		g = gen.Mixed(r, 14)
+	}
+	c.Family, c.Edges = "phase5-captured("+g.Family+")", gen.Names(g)
+	ids := nodeIDs(c.Edges)
+	o := fastCell(r, len(ids), true)
+	o.Router = 3
+	c.Regime = pickRegime(r)
+	if o.Positioner == 3 {
+		c.Regime = "integer"
+	}
+	if r.Intn(5) > 0 {
+		heteroSizes(r, &o, ids, c.Regime, 100, 0.05)
+	} else {
+		applySizes(r, &o, ids, r.Intn(sizeModes), c.Regime, 100)
+	}
+	o.NodeSpacing = spacingVal(r, c.Regime, true)
+	o.LayerSpacing = spacingVal(r, c.Regime, true)
+	capNS(&o)
+	c.Opts = o
+	return c
+}
+
+func pointOf(v any) ([2]float64, bool) {
+	rv := reflect.ValueOf(v)
+	if rv.Kind() != reflect.Struct || rv.NumField() != 2 || rv.Field(0).Kind() != reflect.Float64 {
+		return [2]float64{}, false
+	}
+	return [2]float64{rv.Field(0).Float(), rv.Field(1).Float()}, true
+}
+
+// captureCorridors runs the layout with a recording monitor and returns the corridors the splines router handed to
+// geom.Shortest (events "rect", "shortest-start", "shortest-end" of phase 5), read through reflection at full precision.
+func captureCorridors(c *core.Case) ([]core.Corridor, *core.PanicInfo) {
+	rec := &core.Recorder{}
+	res := core.Run(c.Edges, c.Opts, autog.WithMonitor(rec))
+	if res.Panic != nil {
+		return nil, res.Panic
+	}
+	var out []core.Corridor
+	var cur *core.Corridor
+	for _, e := range rec.Events {
+		if e.Phase != 5 {
+			continue
+		}
+		switch e.Key {
+		case "spline":
+			out = append(out, core.Corridor{Kind: "phase5"})
+			cur = &out[len(out)-1]
+		case "rect":
+			rv := reflect.ValueOf(e.Val)
+			if cur == nil || rv.Kind() != reflect.Struct || rv.NumField() != 2 {
+				continue
+			}
+			tl, ok1 := pointOf(rv.Field(0).Interface())
+			br, ok2 := pointOf(rv.Field(1).Interface())
+			if ok1 && ok2 {
+				cur.Rects = append(cur.Rects, [4]float64{tl[0], tl[1], br[0], br[1]})
+			}
+		case "shortest-start":
+			if p, ok := pointOf(e.Val); ok && cur != nil {
+				cur.Start = p
+			}
+		case "shortest-end":
+			if p, ok := pointOf(e.Val); ok && cur != nil {
+				cur.End = p
+			}
+		}
+	}
+	return out, nil
+}
+
+// judgeCaptured applies the C19 oracle (and, with fit, the C20 containment oracle) to every well-formed captured corridor.
+func judgeCaptured(id string, c *core.Case, fit bool) Result {
+	cors, p := captureCorridors(c)
+	if p != nil {
+		return noReturn(p)
+	}
+	r := held()
+	for i := range cors {
+		co := &cors[i]
+		degenerate := false
+		for _, rc := range co.Rects {
+			if !(rc[2] > rc[0] && rc[3] > rc[1]) {
+				degenerate = true
+			}
+		}
+		if degenerate || len(co.Rects) == 0 {
+			r.stat("captured_degenerate_corridors_not_routed", 1)
+			continue
+		}
+		if err := model.WellFormed(co.Rects, co.Start, co.End); err != nil {
+			r.stat("captured_malformed_corridors", 1)
+			r.stat("captured_malformed_corridors:"+core.PositionerNames[c.Opts.Positioner], 1)
+			r.Notes = append(r.Notes, fmt.Sprintf("%s case %d: phase 5 built a corridor that is not well-formed (%v): corridor construction, not judged here", id, c.Index, err))
+			continue
+		}
+		path, pi := callShortest(co)
+		if pi != nil {
+			return violated("C19/panic/"+pi.Func+"/"+pi.Class, fmt.Sprintf("geom.Shortest panicked on a well-formed corridor built by phase 5: %s; corridor %v start %v end %v", pi.Msg, co.Rects, co.Start, co.End))
+		}
+		res, _, refPath := checkShortest("C19", co, path)
+		if res.Verdict != Held {
+			if fit {
+				return skipped("C19")
+			}
+			res.Detail = "corridor built by phase 5: " + fmt.Sprint(*co) + "\n" + res.Detail
+			return res
+		}
+		r.stat("captured_corridors_judged", 1)
+		if len(refPath) >= 3 {
+			r.Nontrivial = true
+		}
+		if fit && len(path) >= 3 {
+			pieces, pf := callFitSpline(path, co.Rects)
+			if pf != nil {
+				return violated("C20/fit/panic/"+pf.Func+"/"+pf.Class, fmt.Sprintf("FitSpline panicked on a corridor built by phase 5: %s; corridor %v path %v", pf.Msg, co.Rects, path))
+			}
+			fr := checkFit("C20", co, path, pieces)
+			if fr.Verdict != Held {
+				return fr
+			}
+			r.stat("captured_fits", 1)
+			for k, v := range fr.Stats {
+				r.stat(k, v)
+			}
+		}
+	}
+	return r
+}
+
 func corridorCase(prop string, seed int64, tier string, idx int) *core.Case {
+	if idx%10 == 9 {
+		return phase5Case(prop, seed, tier, idx)
+	}
 	r := rng(prop, seed, tier, idx)
 	k := 1 + r.Intn(12)
 	if r.Intn(8) == 0 {
@@ -82,6 +223,7 @@ func init() {
 		Rule: "generated well-formed corridors of 1..12 stacked rectangles; each next rectangle drawn from 9 offset patterns (same, equal left/right edge wider/narrower, " +
 			"widen both, narrow both, shift left/right); half grid-snapped to multiples of 5 (many equal edges), half dyadic; start/end kinds: outer boundary (what phase 5 passes), " +
 			"boundary midpoint, interior, outer corner, vertical side; oracle: end points, containment per rectangle band, length vs visibility-graph Dijkstra; " +
+			"every tenth case instead lays out a graph with long edges using splines routing and judges the corridors phase 5 itself builds, captured through the public monitor; " +
 			"non-trivial = the reference shortest path bends (>= 3 points)",
 		MinNontrivial:    counts(5000, 80000),
 		DeathIsViolation: true,
@@ -92,6 +234,9 @@ func init() {
 		},
 		Gen: func(seed int64, tier string, idx int) *core.Case { return corridorCase("C19", seed, tier, idx) },
 		Check: func(c *core.Case, wantSample bool) Result {
+			if c.Corridor == nil {
+				return judgeCaptured("C19", c, false)
+			}
 			co := c.Corridor
 			if err := model.WellFormed(co.Rects, co.Start, co.End); err != nil {
 				panic("generator produced a malformed corridor: " + err.Error())
